@@ -248,6 +248,62 @@ def falsy_validator_stream(ctx, res, n):
                 res.violate("C11:collect-empty:falsy", "collecting mode reports nothing although a field's validator refuses the held value", case)
 
 
+def empty_item_stream(ctx, res):
+    """an item of a configuration list given as an EMPTY map is held to the same rule as any other: required fields without a default
+    must be set, the item schema's validators must run — by load and by insertion, plain schemas and config types alike"""
+    import cincoconfig as cc
+    from cincoconfig.support import validator as schema_validator
+    for typed in (False, True):
+        for why in ("required", "validator"):
+            for route in ("load_tree", "loads", "append", "assign", "insert"):
+                for depth in (0, 2):
+                    item = cc.Schema()
+                    calls = []
+                    if why == "required":
+                        item.name = cc.StringField(required=True)
+                    else:
+                        item.name = cc.StringField()
+
+                        @schema_validator(item)
+                        def seen(cfg, calls=calls):
+                            calls.append(1)
+                            raise ValueError("an item without a name is not acceptable")
+                    item.port = cc.IntField(default=1)
+                    s = cc.Schema()
+                    holder = s
+                    for lvl in range(depth):
+                        holder = getattr(holder, "lvl%d" % lvl)
+                    holder.items = cc.ListField(cc.make_type(item, "EmptyItem") if typed else item, default=lambda: [])
+                    cfg = s()
+                    h = cfg
+                    for lvl in range(depth):
+                        h = h["lvl%d" % lvl]
+                    tree = {"items": [{"name": "ok"}, {}]}
+                    for lvl in reversed(range(depth)):
+                        tree = {"lvl%d" % lvl: tree}
+                    if why == "validator":
+                        tree = json.loads(json.dumps(tree).replace('{"name": "ok"}, ', ""))
+                    try:
+                        if route == "load_tree":
+                            cfg.load_tree(tree)
+                        elif route == "loads":
+                            cfg.loads(json.dumps(tree).encode(), format="json")
+                        elif route == "append":
+                            h.items.append({})
+                        elif route == "assign":
+                            h.items = [{}]
+                        else:
+                            h.items.insert(0, {})
+                        returned = True
+                    except Exception:  # noqa
+                        returned = False
+                    case = {"stream": "empty-item", "config_type": typed, "why": why, "route": route, "depth": depth}
+                    res.case(stable(case), kind="empty-item:" + route)
+                    if returned:
+                        res.violate("C11:empty-item-not-validated", "an empty map was accepted as an item of a configuration list although the item schema "
+                                    "requires a field / its validator rejects it", dict(case, validator_calls=len(calls)))
+
+
 def run(ctx, n_quick=250, n_thorough=8000):
     res = Result()
     tmp, keypath = P.setup(ctx)
@@ -259,6 +315,7 @@ def run(ctx, n_quick=250, n_thorough=8000):
     finally:
         pass
     guard(res, "C11", falsy_validator_stream, ctx, res, ctx.n(80, 2000))
+    guard(res, "C11", empty_item_stream, ctx, res)
     return res
 
 
